@@ -190,6 +190,59 @@ def blockMatch (fixed : Bool) (a b : Body) : Bool :=
   else
     a.ops.length == b.ops.length && all2 (opMatch false) a.ops b.ops
 
+/-! ## `check_kernel_equivalence` with its `mapping` dictionary made explicit -/
+
+/-- the Python `mapping: dict[SSAValue, SSAValue]` (block_a value number -> block_b value number) -/
+abbrev VMap := Nat → Option Nat
+
+/-- `dict(zip(block_a.args, block_b.args))`: argument `i` of a -> argument `i` of b, as far as both exist -/
+def initMap (na nb : Nat) : VMap := fun i => if i < min na nb then some i else none
+
+/-- `mapping.update(zip(op_a.results, op_b.results))` for ops with one result -/
+def updMap (m : VMap) (ka vb : Nat) : VMap := fun i => if i = ka then some vb else m i
+
+/-- `mapping.get(operand)` -/
+def refGet (m : VMap) : Ref → Option Ref
+  | .val i => (m i).map Ref.val
+  | .outer _ _ => none
+
+/-- one iteration of the fixed matcher's loop, with the dictionary as it is at that point -/
+def opMatchDict (m : VMap) (a b : BOp) : Bool :=
+  a.kind.sameType b.kind &&
+    (a.width == b.width &&
+      (a.args.map (refGet m) == b.args.map some ||
+        (a.kind.commutative && (a.args.map (refGet m)).reverse == b.args.map some)))
+
+/-- the loop over `zip(block_a.ops, block_b.ops)`: `na`/`nb` = number of the next result in a / in b;
+returns the final dictionary (`none` = `return False`) -/
+def opsMatchDict : VMap → Nat → Nat → List BOp → List BOp → Option VMap
+  | m, _, _, [], [] => some m
+  | m, na, nb, a :: as, b :: bs =>
+    if opMatchDict m a b then opsMatchDict (updMap m na nb) (na + 1) (nb + 1) as bs else none
+  | _, _, _, _, _ => none
+
+/-- `check_kernel_equivalence` (fixed) as written: length checks, dictionary from the block arguments, the loop,
+and the yield (last op of both blocks) compared through the final dictionary -/
+def blockMatchDict (a b : Body) : Bool :=
+  a.ops.length == b.ops.length && a.args.length == b.args.length &&
+    match opsMatchDict (initMap a.args.length b.args.length) a.args.length b.args.length a.ops b.ops with
+    | some m => a.ret.map (refGet m) == b.ret.map some
+    | none => false
+
+/-- every operand of an op refers to a value defined before it (SSA dominance inside the block) -/
+def scopedRefs (k : Nat) (l : List Ref) : Bool :=
+  l.all fun r => match r with | .val i => decide (i < k) | .outer _ _ => true
+
+def scopedOps : Nat → List BOp → Bool
+  | _, [] => true
+  | k, op :: rest => scopedRefs k op.args && scopedOps (k + 1) rest
+
+def Body.wellScoped (b : Body) : Bool :=
+  scopedOps b.args.length b.ops && scopedRefs (b.args.length + b.ops.length) b.ret
+
+def idMap (k : Nat) : VMap := fun i => if i < k then some i else none
+
+
 /-! ## the kernels -/
 
 inductive Kernel | mul | add | mac | qmac | rescale
@@ -228,6 +281,11 @@ first match, but after a replacement the block is `[kernel op, yield]`, which ma
 def recognize (fixed : Bool) (b : Body) : Option Kernel :=
   Kernel.parsable.find? fun k =>
     k.nOperands == b.args.length - 1 && blockMatch fixed b (equivalentRegion k b.args)
+
+/-- `ParseLinalgBody` with the dictionary-based matcher -/
+def recognizeDict (b : Body) : Option Kernel :=
+  Kernel.parsable.find? fun k =>
+    k.nOperands == b.args.length - 1 && blockMatchDict b (equivalentRegion k b.args)
 
 /-! ## intended meaning of the kernels (specification, over the integers) -/
 
@@ -372,6 +430,15 @@ def lowerResultFixed (b : MBody) : MBody :=
   match lowerLinalgBodyFixed b with
   | some r => r.toMBody
   | none => b
+
+/-! ## pass pipeline on one body -/
+
+/-- `convert-linalg-to-kernel` followed by `convert-kernel-to-linalg` on one body -/
+def pipelineRecognizeExpand (b : Body) : MBody :=
+  match recognize true b with
+  | some k => lowerResultFixed (toKernelForm b k).toMBody
+  | none => b.toMBody
+
 
 /-! ## rescale -/
 
@@ -546,6 +613,20 @@ def dispatch (accs : List Acc) (k : Kernel) (tys : List Nat) (dynamic : Bool) : 
   | .error e => .error e
   | .ok none => .ok none
   | .ok (some a) => .ok (some (if a.streamer && !dynamic then a.name ++ "_stream" else a.name))
+
+/-! ### dispatch with the repair fixes/FD15-dispatch-operand-types.diff (NOT applied to /repo: it changes the output of
+the upstream test dispatch_kernels.mlir, whose first input dispatches a mistyped qmac) -/
+
+/-- the loop over `supported_kernels` with the whole type list compared: an entry matches iff kind and types agree -/
+def matchSupportedFixed (k : Kernel) (tys : List Nat) (l : List Supported) : Bool :=
+  l.any fun sk => sk.kind == k && sk.types == tys
+
+def findAccFixed (k : Kernel) (tys : List Nat) : List Acc → Option Acc
+  | [] => none
+  | a :: rest => if matchSupportedFixed k tys a.supported then some a else findAccFixed k tys rest
+
+def dispatchFixed (accs : List Acc) (k : Kernel) (tys : List Nat) (dynamic : Bool) : Option String :=
+  (findAccFixed k tys accs).map fun a => if a.streamer && !dynamic then a.name ++ "_stream" else a.name
 
 /-! ## `SupportedKernel.is_same_kernel` (accelerators/dispatching.py) -/
 
